@@ -4,9 +4,20 @@ A *case* is a dict
     {'role': 'soupClient'|'soupServer'|'fix', 'ci': <client interval>, 'si': <server interval>,
      'events': [[t, ev], ...], 'horizon': H}
 with all times in grid units after login (one unit = UNIT virtual seconds), `ev` one of
-    'send' | 'send:<variant>' | 'sendhb' | 'recv:hb' | 'recv:msg' | 'recv:frag' | 'close'.
+    'send' | 'send:<variant>' | 'sendfail' | 'sendfail:<variant>' | 'sendhb' | 'recv:hb' | 'recv:msg' | 'recv:frag' | 'close' | 'block:<d>'.
 `send:<variant>` names which application-send entry point of the session API is used (SEND_VARIANTS below; plain `send` is the
 first variant of the role).  For the model every one of them is the same event: an application send = any non-heartbeat write.
+`sendfail:<variant>` is an application send that the library *rejects*: the call raises before anything is written (FAIL_VARIANTS:
+a FIX message without its mandatory body fields, a value that cannot be encoded, a soup payload longer than a packet, …).  For
+the model it is `sendfailed`: no write, no ping.
+`block:<d>` (C09): the callback that performs the script — i.e. a handler running on the event loop — *blocks* for d grid units:
+the virtual clock is moved on synchronously (`VirtualLoop.hold`), no loop iteration happens meanwhile, so no timer fires and
+nothing is handed to the session.  `recv:*` events stamped inside (t, t+d] are bytes that reached the socket during the hold-up:
+they are handed to `data_received` when the block ends, in script order, *before* the late timers run — the order of
+`BaseEventLoop._run_once` (selector events first, then due timers).  Other events stamped inside a hold-up make no sense (the
+application is the one that is blocked) and are removed by `sanitize`.  Cases with blocks go to the model as `hbl.run`
+(Model/MonitorLate.lean: `hold`, `resume`).  Blocks start on odd instants and have odd lengths: they end on even instants, so
+late ticks and everything scheduled from them stay on even instants and never tie with an external event.
 Generated cases keep monitor ticks on even instants (even intervals) and external events on odd instants, so that no
 external event ever ties with a tick (the model resolves such a tie as "tick first"; the real loop by float noise).
 
@@ -33,6 +44,13 @@ SEND_VARIANTS = {
     'soupClient': ['unseq', 'debug', 'msg-unseq', 'msg-debug', 'msg-login'],
     'soupServer': ['seq', 'seq-obj', 'debug', 'msg-seq', 'msg-debug'],
     'fix': ['nope', 'login', 'nope-user'],
+}
+
+# application sends that the library rejects before writing anything (raise inside send_msg / the send_* helper), per role
+FAIL_VARIANTS = {
+    'soupClient': ['debug-nonascii', 'data-toolong', 'data-str'],
+    'soupServer': ['debug-nonascii', 'data-toolong', 'data-str'],
+    'fix': ['validate', 'encode'],
 }
 
 KNOWN_LOCAL = []        # no pending finding: the server call-site defect (C08-server-heartbeat-args) is fixed in /repo 757e1aa;
@@ -134,6 +152,8 @@ class Rig:
         self.s = None
         self.peer = None
         self.peer_task = None
+        self.rejected = []      # exception names of the `sendfail` events
+        self.not_rejected = []  # `sendfail` variants the library did not reject
 
     async def _on_msg(self, _m):
         return None
@@ -240,9 +260,40 @@ class Rig:
         else:
             raise ValueError(variant)
 
+    def app_send_fail(self, variant):
+        """one application send that the library must reject (it raises before the write)"""
+        s = self.s
+        if self.role == 'fix':
+            fixm = _fix_libs()['fixm']
+            if variant == 'validate':          # mandatory body fields (Field_1_Int, Field_2_Str) missing: msg.validate raises
+                s.send_msg(fixm.Message_1())
+            elif variant == 'encode':          # not ASCII: _prepare_complete_msg raises
+                m = fixm.Nope()
+                m.Username = 'h\xe9'
+                s.send_msg(m)
+            else:
+                raise ValueError(variant)
+            return
+        data = (lambda d: s.send_unseq_data(d)) if self.role == 'soupClient' else (lambda d: s.send_seq_msg(d))
+        if variant == 'debug-nonascii':
+            s.send_debug('h\xe9')
+        elif variant == 'data-toolong':        # longer than the 16-bit packet length
+            data(b'x' * 40000)
+        elif variant == 'data-str':
+            data('abc')
+        else:
+            raise ValueError(variant)
+
     async def do(self, ev):
         s = self.s
-        if ev == 'send' or ev.startswith('send:'):
+        if ev == 'sendfail' or ev.startswith('sendfail:'):
+            v = ev[9:] or FAIL_VARIANTS[self.role][0]
+            try:
+                self.app_send_fail(v)
+                self.not_rejected.append(v)
+            except Exception as e:      # noqa — the rejection (whatever the library raises)
+                self.rejected.append(common.err_name(e))
+        elif ev == 'send' or ev.startswith('send:'):
             self.app_send(ev[5:] or SEND_VARIANTS[self.role][0])
         elif ev == 'sendhb':
             if self.role == 'fix':
@@ -298,9 +349,13 @@ async def _impl_case(case):
     rig = Rig(case['role'], case['ci'], case['si'])
     try:
         await rig.login()
+        loop = asyncio.get_running_loop()
         for t, ev in case['events']:
-            await until(rig.t0 + t * UNIT)
-            await rig.do(ev)
+            await until(rig.t0 + t * UNIT)          # returns at once (no loop iteration) for an event stamped inside a hold-up
+            if ev.startswith('block:'):
+                loop.hold(rig.t0 + (t + int(ev[6:])) * UNIT)
+            else:
+                await rig.do(ev)
         await until(rig.t0 + case['horizon'] * UNIT)
         await turns(4)
         obs = {'closed': None, 'writes': []}
@@ -318,6 +373,8 @@ async def _impl_case(case):
             obs['closed'] = ['?', 'no-transport-close']
         if offgrid:
             obs['offgrid'] = True
+        if rig.not_rejected:
+            obs['not_rejected'] = rig.not_rejected[:5]
         return obs
     finally:
         await rig.finish()
@@ -341,16 +398,54 @@ def impl_run(case):
 
 
 # ------------------------------------------------------------------ model side
-def model_request(case):
-    out, now = [], 0
+def blocks_of(case):
+    """[(start, end)] of the hold-ups of a case"""
+    return [(t, t + int(ev[6:])) for t, ev in case['events'] if ev.startswith('block:')]
+
+
+def sanitize(case):
+    """drop what cannot happen: a block that starts inside another one, application actions stamped inside a hold-up"""
+    out, end = [], -1
     for t, ev in case['events']:
+        if ev.startswith('block:'):
+            if t <= end or int(ev[6:]) <= 0:
+                continue
+            end = t + int(ev[6:])
+        elif t <= end and not ev.startswith('recv'):
+            continue
+        out.append([t, ev])
+    return dict(case, events=out, horizon=max(case['horizon'], end + 1))
+
+
+def model_token(ev):
+    if ev == 'sendfail' or ev.startswith('sendfail:'):
+        return 'sendfailed'
+    if ev == 'send' or ev.startswith('send:'):
+        return 'send'
+    return {'sendhb': 'sendhb', 'close': 'close'}.get(ev) or ['recv', ev[5:]]
+
+
+def model_request(case):
+    late = any(ev.startswith('block:') for _, ev in case['events'])
+    out, now, end = [], 0, None          # end: instant at which the current hold-up ends
+    def pass_to(t):
+        nonlocal now, end
+        if end is not None and t > end:
+            if end > now:
+                out.append(['hold', end - now])
+            out.append('resume')
+            now, end = max(now, end), None
         if t > now:
-            out.append(['adv', t - now])
+            out.append(['hold' if end is not None else 'adv', t - now])
             now = t
-        out.append('send' if ev.startswith('send:') else {'send': 'send', 'sendhb': 'sendhb', 'close': 'close'}.get(ev) or ['recv', ev[5:]])
-    if case['horizon'] > now:
-        out.append(['adv', case['horizon'] - now])
-    return f"hb.run {case['role']} {case['ci']} {case['si']} {sx(out)}"
+    for t, ev in case['events']:
+        pass_to(t)
+        if ev.startswith('block:'):
+            end = t + int(ev[6:])
+        else:
+            out.append(model_token(ev))
+    pass_to(max(case['horizon'], now if end is None else end + 1))
+    return f"{'hbl' if late else 'hb'}.run {case['role']} {case['ci']} {case['si']} {sx(out)}"
 
 
 def parse_model(line):
@@ -377,7 +472,7 @@ def parse_request(req):
         elif isinstance(e, list):
             events.append([now, 'recv:' + e[1]])
         else:
-            events.append([now, e])
+            events.append([now, 'sendfail' if e == 'sendfailed' else e])
     return {'role': t[1], 'ci': int(t[2]), 'si': int(t[3]), 'events': events, 'horizon': now}
 
 
@@ -479,6 +574,8 @@ def vary_sends(rng, case):
     for e in case['events']:
         if e[1] == 'send':
             e[1] = 'send:' + rng.choice(SEND_VARIANTS[case['role']])
+        elif e[1] == 'sendfail':
+            e[1] = 'sendfail:' + rng.choice(FAIL_VARIANTS[case['role']])
     return case
 
 
